@@ -471,6 +471,7 @@ func runC07(e *Engine, r *Report) {
 	}
 	// ---- shared election guards
 	ruleCampaignGuard(e, r, tbl)
+	ruleCampaignPredicate(e, r)
 	ruleElectionMessageGuard(e, r)
 
 	// ---- the apply side reports rejected unless handleConfigChange accepted
